@@ -53,6 +53,18 @@ fn rules() -> Vec<(String, Expr)> {
         // rules made of literals only (anything computed once per ruleset and published to other threads would be these)
         ("constant table".into(), Expr::Vec((0..if cfg!(miri) { 4 } else { 300 }).map(|i| Expr::Vec(vec![Expr::value(i as i128), Expr::value(format!("row {i}"))])).collect())),
         ("constant".into(), Expr::add(Expr::value(40), Expr::value(2))),
+        // every built-in that parses or converts, on operands that differ from task to task (anything memoised process-wide —
+        // the last parsed date, the last cast — would be shared by all threads)
+        ("dates".into(), Expr::Vec(vec![
+            Expr::year(Expr::datetime(Expr::reff("when"))), Expr::month(Expr::datetime(Expr::reff("when"))), Expr::day(Expr::datetime(Expr::reff("when"))), Expr::hour(Expr::datetime(Expr::reff("when"))),
+            Expr::minute(Expr::datetime(Expr::reff("when"))), Expr::second(Expr::datetime(Expr::reff("when"))), Expr::week(Expr::reff("a")),
+            Expr::sub(Expr::datetime(Expr::reff("when")), Expr::datetime(Expr::value("2000-01-01T00:00:00Z".to_string()))), Expr::datetime(Expr::reff("a")), Expr::duration(Expr::reff("a")),
+        ])),
+        ("casts and strings".into(), Expr::Vec(vec![
+            Expr::int(Expr::reff("num")), Expr::float(Expr::reff("num")), Expr::dec(Expr::reff("num")), Expr::int(Expr::reff("x")), Expr::dec(Expr::reff("x")), Expr::float(Expr::reff("a")),
+            Expr::uppercase(Expr::reff("word")), Expr::lowercase(Expr::reff("word")), Expr::trim(Expr::reff("word")), Expr::contains(Expr::reff("word"), Expr::value("7".to_string())),
+            Expr::round(Expr::reff("x")), Expr::floor(Expr::reff("x")), Expr::fract(Expr::reff("x")), Expr::rem(Expr::reff("a"), Expr::value(7)), Expr::bitwise_xor(Expr::reff("a"), Expr::value(255)),
+        ])),
     ]
 }
 
@@ -60,6 +72,11 @@ fn input(i: u64) -> Value {
     let mut m = BTreeMap::new();
     m.insert("a".to_string(), Value::Int(i as i128));
     m.insert("b".to_string(), Value::Int((i % 3) as i128));
+    m.insert("when".to_string(), Value::String(format!("{:04}-{:02}-{:02}T{:02}:{:02}:{:02}Z", 1900 + (i % 300), 1 + (i % 12), 1 + (i % 28), i % 24, i % 60, (i * 7) % 60)));
+    m.insert("span".to_string(), Value::String(format!("P{}DT{}H", i % 400, i % 24)));
+    m.insert("num".to_string(), Value::String(format!("{}", i * 37 + 5)));
+    m.insert("word".to_string(), Value::String(format!("  Word {i} ß "))); 
+    m.insert("x".to_string(), Value::Float(i as f64 / 8.0 + 0.5));
     Value::Map(m)
 }
 
